@@ -22,8 +22,90 @@ TITLE = "Printing and parsing are inverse and printing is unambiguous"
 PLANS12 = {"quick": (("a24", 1),), "thorough": (("a24", 1), ("a12", 2))}
 
 
+def documented_names():
+    """The variable names parse_y0 documents: A-Z (P and Q are the probability / Q-factor builders), Pi and π, each bare,
+    with a digit suffix and with an underscore-digit suffix.  Generated from the documented scheme, not read from the
+    parser's table."""
+    import string
+
+    out = []
+    for letter in list(string.ascii_uppercase) + ["Pi", "π"]:
+        if letter in ("P", "Q"):
+            continue
+        out.append(letter)
+        for i in range(10):
+            out += [f"{letter}{i}", f"{letter}_{i}"]
+    return out
+
+
+def name_expressions(name):
+    """The name in every role a variable can play in a printed expression, next to a partner variable; for the Pi / π
+    families also next to its look-alike in the other spelling."""
+    from y0.dsl import PP, P, Q, Sum, Variable
+
+    n = Variable(name)
+    a = Variable("A") if name != "A" else Variable("B")
+    out = [
+        ("outcome", P(n)),
+        ("joint", P(n, a)),
+        ("parent", P(a | n)),
+        ("child", P(n | a)),
+        ("intervention", P[n](a)),
+        ("intervened", P[a](n)),
+        ("counterfactual_minus", P(n @ -a)),
+        ("counterfactual_plus", P(a @ +n)),
+        ("value_mark", P(-n, a)),
+        ("sum_range", Sum[n](P(n, a))),
+        ("sum_other", Sum[a](P(n, a))),
+        ("population", PP[n](a)),
+        ("population_child", PP[a](n)),
+        ("qfactor_domain", Q[n](a, n)),
+        ("qfactor_codomain", Q[a](n)),
+        ("fraction", P(n, a) / P(n)),
+    ]
+    twin = None
+    if name.startswith("Pi"):
+        twin = "π" + name[2:]
+    elif name.startswith("π"):
+        twin = "Pi" + name[1:]
+    if twin:
+        t = Variable(twin)
+        out += [
+            ("twin_joint", P(n, t)),
+            ("twin_sum", Sum[t](P(n, t))),
+            ("twin_population", PP[t](n)),
+            ("twin_intervention", P[t](n)),
+        ]
+    return out
+
+
+def check_names(res: Res, lo, hi):
+    """Exhaustive over the documented name alphabet: the printed form of an expression over a documented name parses back
+    to the *same object* (distinct names are distinct variables, so object equality is the meaning clause here)."""
+    from y0.parser import parse_y0
+
+    for name in documented_names()[lo:hi]:
+        for role, e in name_expressions(name):
+            res.states += 1
+            res.transitions += 1
+            case = {"name": name, "role": role}
+            text = str(e)
+            try:
+                parsed = parse_y0(text)
+            except Exception as ex:  # noqa
+                res.violation("parse", case, f"parse_y0({text!r}) raised {type(ex).__name__}: {ex}")
+                res.outcomes["name_parse_failed"] += 1
+                continue
+            if struct_key(parsed) != struct_key(e) or not (parsed == e) or str(parsed) != text:
+                res.violation("meaning", case, f"{text!r} parses to {parsed!r} (prints as {str(parsed)!r}): another variable, hence another quantity")
+                res.outcomes["name_changed"] += 1
+                continue
+            res.outcomes["name_roundtrip_equal"] += 1
+
+
 def shards(tier):
-    return plan_shards(tier, 8 if tier == "quick" else 64, family="print", plans=PLANS12)
+    names = [("names", i, i + 40) for i in range(0, len(documented_names()), 40)]
+    return names + plan_shards(tier, 8 if tier == "quick" else 64, family="print", plans=PLANS12)
 
 
 def describe(tier):
@@ -34,7 +116,10 @@ def describe(tier):
     return {
         "bound": "variables A, B, C; atoms: plain / conditional / interventional (+ and - subscripts) / value-marked / "
         "population-tagged probabilities, Q-factors, One, Zero; operators *, / (both sides), Sum, marginalize, conditional "
-        "with every non-empty range subset; " + "; ".join(parts) + "; every assignment of the free values",
+        "with every non-empty range subset; " + "; ".join(parts) + "; every assignment of the free values; name slice: each of the "
+        f"{len(documented_names())} documented variable names (A-Z without P, Q; Pi; π; bare, digit- and underscore-digit-suffixed) in "
+        "16 roles (outcome, parent, subscript, counterfactual, value mark, Sum range, population, Q-factor, fraction) and the Pi/π "
+        "families next to their look-alike in the other spelling",
         "rule": "state = expression built by public operators (dedup by exact structure); transition = str() followed by "
         "parse_y0(); the parsed object's value function is compared with the original's; in the un-nested-division "
         "sub-family the parsed object must equal the original and print identically",
@@ -101,6 +186,10 @@ def on_state(ex: Explorer, res: Res, st: State):
 
 
 def work(shard, tier, seed):
+    if shard[0] == "names":
+        res = Res()
+        check_names(res, shard[1], shard[2])
+        return res
     alpha, depth, lo, hi = shard
     res = Res()
     ex = Explorer(alpha, depth, seed, family="print", tier=tier)
@@ -112,6 +201,10 @@ def replay(case, clause=None):
     import os
 
     res = Res()
+    if "name" in case:
+        i = documented_names().index(case["name"])
+        check_names(res, i, i + 1)
+        return [v for v in res.violations if v["input"].get("role") == case.get("role")]
     alpha = case.get("alpha", "a24")
     ex = Explorer(alpha, 0, int(os.environ.get("VERIF_SEED", "0") or 0), family="print", tier="thorough")
     on_state(ex, res, rebuild(case["ops"], alpha, "print"))
